@@ -151,6 +151,9 @@ MUTANTS += [
  ('C07', 'gc-revived-garbage-strict-regress', FSP, "                        garbage_roots.append(dh.back)", "                        extra_roots.append(dh.back)"),
  ('C07', 'gc-revived-revision-not-traversed-regress', FSP, "                        garbage_roots.append(dh.back)", "                        pass"),
  ('C07', 'packcopier-data-find-first-record', FSP, "                data_hdr = h\n                data_pos = pos\n", "                data_hdr = h\n                data_pos = pos\n                break\n"),
+ ('C10', 'pr-cmp-ignores-database-name', 'ConflictResolution.py', "                self.database_name == other.database_name and\n", ""),
+ ('C10', 'pr-cmp-weak-compares-equal', 'ConflictResolution.py', "                not self.weak and\n                not other.weak):", "                True):"),
+ ('C10', 'pr-cmp-unequal-instead-of-error', 'ConflictResolution.py', "            raise ValueError(\n                \"can't reliably compare against different \"\n                \"PersistentReferences\")", "            return 1"),
  ('C09', 'time-travel-uses-index-regress', FS, "        r = None if time_travel else self._restore_index()", "        r = self._restore_index()"),
  ('C11', 'close-precheck-regress', 'Connection.py', "                if connection is not self and not connection._needs_to_join:\n                    raise ConnectionStateError(\n                        \"Cannot close a connection joined to a transaction\")", "                pass"),
  ('C13', 'tmpstore-f20-regress', CONN, "        targetname = self._getCleanFilename(oid, self.index[oid])", "        targetname = self._getCleanFilename(oid, 0)"),
